@@ -142,7 +142,8 @@ def run(ctx):
     coq_cases, metas = [], []
     with bfsrun.Monitors() as mon:
         for _ in range(ctx.budget(110, 900)):
-            gd = G.gen_graph(rng, cap=ctx.budget(400, 3000))
+            # every 7th graph: matrix entries far beyond 8 / 16 / 32 bits (stored layers must hold them as they are)
+            gd = (G.gen_overflow_matrix_graph(rng, 400) if len(coq_cases) % 14 == 3 else G.gen_shear_matrix_graph(rng) if len(coq_cases) % 7 == 3 else G.gen_graph(rng, cap=ctx.budget(400, 3000)))
             layers, dist = G.ref_bfs(gd, [gd["central"]])
             starts = G.gen_starts(rng, gd, dist)
             layers, dist = G.ref_bfs(gd, starts)
